@@ -435,6 +435,7 @@ void set_link_cut(int node,const std::string &addr,bool cut){
 	if(!cut){ cut_links.erase({node,addr}); tracef("fault: link node %d - %s healed",node,addr.c_str()); return; }
 	cut_links.insert({node,addr}); trace_mix(0x9A27+node); S.partitions++; tracef("fault: link node %d - %s cut",node,addr.c_str());
 	for(auto&o:fdtab) if(o&&o->kind==Obj::STREAM&&!o->accepted&&o->conn_node==node&&o->addr==addr&&o->reset&&!*o->reset) *o->reset=true; }
+int unconsumed_resets(){ int n=0; for(auto&o:fdtab) if(o&&o->kind==Obj::STREAM&&!o->accepted&&o->reset&&*o->reset) n++; return n; }   // connecting-side sockets that were reset and not yet closed by their owner
 bool reset_accepted_stream(uint64_t pick){ std::vector<Obj*> v; for(auto&o:fdtab) if(o&&o->accepted&&o->kind==Obj::STREAM&&!*o->reset) v.push_back(o.get()); if(v.empty()) return false; Obj*o=v[pick%v.size()]; *o->reset=true; trace_mix(0xEE5E7); tracef("fault: connection reset injected"); return true; }
 int open_accepted_fds(){ int n=0; for(auto&o:fdtab) if(o&&o->accepted) n++; return n; }
 std::string describe_fds(){
